@@ -182,7 +182,8 @@ _ONE = 1
 from pymbolic.mapper.substitutor import CachedSubstitutionMapper, SubstitutionMapper
 from pymbolic.mapper.analysis import NodeCountMapper
 from pymbolic.mapper.flop_counter import FlopCounter, FlopCounterBase
-from pymbolic.mapper.evaluator import CachedEvaluationMapper, EvaluationMapper
+from pymbolic.mapper.evaluator import (CachedEvaluationMapper, EvaluationMapper,
+    CachedFloatEvaluationMapper, FloatEvaluationMapper)
 from pymbolic.mapper.dependency import CachedDependencyMapper, DependencyMapper
 from pymbolic.mapper.differentiator import DifferentiationMapper
 from dst.simrt import hook as _hook
@@ -312,11 +313,24 @@ class P_walkset(WalkMapper):
         self.done.append(expr)
 
 
+class NoCseCacheMixinF:
+    def map_common_subexpression(self, expr, *args):
+        return self.map_common_subexpression_uncached(expr, *args)
+
+
 class C_eval_0(CachedEvaluationMapper):
     pass
 
 
 class P_eval(EvaluationMapper):
+    pass
+
+
+class C_feval_0(CachedFloatEvaluationMapper):
+    pass
+
+
+class P_feval(NoCseCacheMixinF, FloatEvaluationMapper):
     pass
 
 
@@ -403,7 +417,7 @@ ARITH = ["Variable", "Sum", "Product", "Quotient", "FloorDiv", "Remainder", "Pow
 
 FAMS_BROAD = ["ident", "subst", "collect", "walk", "dep", "count", "combine", "plainopt",
               "entry_subst", "hook", "twomod", "state"]
-FAMS_ARITH = ["eval", "csemix_eval", "flop", "ident", "combine", "dep", "count", "collect",
+FAMS_ARITH = ["eval", "feval", "csemix_eval", "flop", "ident", "combine", "dep", "count", "collect",
               "csemix_dep", "csemix_diff", "entry_subst", "entry_eval"]
 REWRITABLE = {"ident", "combine", "collect", "walk", "subst", "count", "flop", "plainopt",
               "twomod", "state"}
@@ -619,7 +633,7 @@ def generate(seed, tier):
             else:
                 bits = "00100"      # always a valid combination
         cfg = {}
-        if fam in ("eval", "csemix_eval"):
+        if fam in ("eval", "feval", "csemix_eval"):
             cfg["vars"] = {v: ["fr", r.randint(-5, 9), r.choice([1, 1, 2, 3])]
                            for v in ["x", "y", "z", "xa"]}
             ck = r.choice(["dict", "dict", "dict", "defaultdict", "late"])
@@ -705,6 +719,11 @@ def generate(seed, tier):
         elif x < 0.12 and mode == "strict":
             # bare typed constants at top level (the key has a type(expr) component)
             et = g.const(r.choice(["i", "f", "b", "npi"]), 4 if r.random() < 0.7 else 1)
+            if r.random() < 0.3:
+                # equal constants that do not convert alike: signed zeros, a real-valued
+                # complex number
+                et = r.choice([["i", 0], ["f", "-0.0"], ["f", "0.0"], ["i", 2], ["c", "2.0", "0.0"],
+                               ["f", "2.0"]])
         elif x < 0.16 and mode == "strict":
             # a tuple of expressions is a legal (hashable) top-level input as well
             et = ["t", [["r", r.choice(pool_names)] for _ in range(r.randint(1, 3))]]
@@ -770,9 +789,15 @@ class _Inst:
         self.async_hits = 0
         self.mode = ""
         self.live_ctx = None
+        self.zero_forms = set()
         self.model = None
         self.inline_rec_no_cache = False
         self.faulted = False
+
+
+SIGNED_ZERO_WHAT = ("0.0 and -0.0 are ==, hash alike and have one type: no cache key tells them "
+                    "apart, [m(-0.0), m(0.0)] on one memoizing mapper answers the second call "
+                    "with the first call's zero (D15)")
 
 
 def _sha(x):
@@ -959,7 +984,7 @@ def execute(scenario, open_sigs):
             alts = [[(B.build(k, fresh=True) if isinstance(k, list) else k,
                       B.build(v, fresh=True)) for k, v in alt] for alt in c.get("alts", [[]])]
             return EntryPoint(fam, cls == "cached", alts or [[]])
-        if fam in ("eval", "csemix_eval"):
+        if fam in ("eval", "feval", "csemix_eval"):
             ctx = {k: B.build(v) for k, v in c.get("vars", {}).items()}
             if c.get("ctx_kind") == "defaultdict":
                 import collections
@@ -1016,6 +1041,8 @@ def execute(scenario, open_sigs):
             plain = M.P_walkset
         elif fam == "eval":
             plain = M.P_eval_nc
+        elif fam == "feval":
+            plain = M.P_feval
         elif fam == "dep":
             plain = M.P_dep_nc
         else:
@@ -1141,6 +1168,11 @@ def execute(scenario, open_sigs):
                 probe("toplevel_typed_constants")
             sub = []
             _subexprs_canon(ec, sub)
+            for c in sub:
+                if util._is_num(c) and len(c) == 2 and c[1] in ("0.0", "-0.0"):
+                    st.zero_forms.add((c[0], c[1]))
+            both_zeros = any((t, "0.0") in st.zero_forms and (t, "-0.0") in st.zero_forms
+                             for t, _ in st.zero_forms)
 
             # ---- reference: non-memoizing counterpart, applied afresh, no faults
             _, plain_cls = classes_for(ins)
@@ -1315,7 +1347,11 @@ def execute(scenario, open_sigs):
                     detail = "node count outcome differs"
                 else:
                     if st.obj.count != len(st.count_model):
-                        if mode == "nv" and mgot is not None and mgot[0] == "ok" \
+                        if both_zeros and st.obj.count == len({k.replace('"-0.0"', '"0.0"')
+                                                               for k in st.count_model}) and kf(
+                                "signed-zero-conflation", SIGNED_ZERO_WHAT):
+                            pass
+                        elif mode == "nv" and mgot is not None and mgot[0] == "ok" \
                                 and st.obj.count == len(st.model.nodes) and kf(
                                 "nested-typed-constant-conflation",
                                 "cache keys distinguish constant types at top level only: "
@@ -1343,7 +1379,11 @@ def execute(scenario, open_sigs):
                 if g_r != w_r:
                     ok = False
                     detail = {"got": g_r, "want": w_r}
-                    if mode == "nv" and mgot is not None \
+                    if both_zeros and jkey(g_r).replace('"-0.0"', '"0.0"') == jkey(w_r).replace(
+                            '"-0.0"', '"0.0"') and kf("signed-zero-conflation", SIGNED_ZERO_WHAT):
+                        ok = True
+                        detail = None
+                    elif mode == "nv" and mgot is not None \
                             and outcome_repr(mgot) == g_r and kf(
                                 "nested-typed-constant-conflation",
                                 "cache keys distinguish constant types at top level "
